@@ -2,7 +2,7 @@
    WriterChunks (chunk independence), LayoutRender (no lost cell) and the C07 surface layer. *)
 From Coq Require Import List Arith Bool NArith ZArith Lia Sorting.Sorted.
 From SNT Require Import Base.Outcome Surface.Bounds Surface.BoundsProofs Surface.Shape Surface.ShapeProofs
-  Render.CellLayout Render.Writer Render.WriterFrame Render.WriterChunks Render.LayoutFacts Render.LayoutRender
+  Render.CellLayout Render.Writer Render.TokFuel Render.WriterTty Render.WriterFrame Render.WriterChunks Render.LayoutFacts Render.LayoutRender
   Render.TextView.
 Import ListNotations.
 Local Arguments Nat.modulo : simpl never.
@@ -29,28 +29,12 @@ Qed.
 (* ---------- chunk independence ---------- *)
 Theorem chunking_programs ctx sh data ops1 ops2 :
   InBounds sh (length data) -> map merge_op ops1 = map merge_op ops2 ->
-  exists a fa b fb,
-    wops_run ctx (writer_new sh data) ops1 = Ok (a, fa) /\
-    wops_run ctx (writer_new sh data) ops2 = Ok (b, fb) /\
-    w_data a = w_data b /\ (~ Dead a -> a = b /\ fa = fb).
-Proof.
-  intros Hb Hm.
-  destruct (program_chunking ctx ops1 ops2 (writer_new sh data) (writer_new sh data) Hb Hb (sim_refl _) Hm)
-    as (a & fa & b & fb & Ha & Hb' & S & F).
-  exists a, fa, b, fb. split; [exact Ha|]. split; [exact Hb'|]. split; [apply sim_data, S|].
-  intros Hna. split; [apply sim_alive; assumption|apply F, Hna].
-Qed.
+  wops_run ctx (writer_new sh data) ops1 = wops_run ctx (writer_new sh data) ops2.
+Proof. intros Hb Hm. now apply program_chunking. Qed.
 
 Theorem chunking_midstream ctx st chunks1 chunks2 :
-  InBounds (w_sh st) (length (w_data st)) -> concat chunks1 = concat chunks2 ->
-  exists a fa b fb,
-    write_chunks ctx st chunks1 = Ok (a, fa) /\ write_chunks ctx st chunks2 = Ok (b, fb) /\
-    w_data a = w_data b /\ (~ Dead a -> a = b /\ fa = fb).
-Proof.
-  intros Hb Hc. destruct (write_chunks_partition ctx st chunks1 chunks2 Hb Hc) as (a & fa & b & fb & Ha & Hb' & S & F).
-  exists a, fa, b, fb. split; [exact Ha|]. split; [exact Hb'|]. split; [apply sim_data, S|].
-  intros Hna. split; [apply sim_alive; assumption|apply F, Hna].
-Qed.
+  concat chunks1 = concat chunks2 -> write_chunks ctx st chunks1 = write_chunks ctx st chunks2.
+Proof. apply write_chunks_partition. Qed.
 
 (* ---------- no lost cell ---------- *)
 (* where the measuring run of Text::layout puts the cells it gives a position to *)
